@@ -45,6 +45,7 @@ def step (line : String) : String :=
   | "nestedvb" :: args => handleGeom "nestedvb" args
   | "concat" :: args => handleGeom "concat" args
   | "svgsize" :: args => handleGeom "svgsize" args
+  | "fontsize" :: args => handleGeom "fontsize" args
   | _ => "bad-op"
 
 partial def loop (h : IO.FS.Stream) (out : IO.FS.Stream) : IO Unit := do
